@@ -1,4 +1,5 @@
 import LabtechModel.Proofs.Submit
+import LabtechModel.Proofs.InvMain
 /-!
 # C11 — run_tasks always terminates; it never deadlocks or spins
 
@@ -10,8 +11,19 @@ Proved here:
 * `yield_shrinks_futs`: every yielded outcome, success, raise or death alike, leaves the set of
   tracked futures strictly smaller (a dead worker does not block the run);
 * `serial_wait_shrinks_deque`: every serial wait shortens the deque.
-The no-deadlock statement (pending work implies something in flight) needs the dependency
-invariant and acyclicity; see DESIGN.md.
+Whole runs (from the master invariant of `Proofs/InvLoop.lean` and `Proofs/InvLive.lean`):
+* `no_keyerror` (no hypothesis): no reachable state has raised `KeyError`; at every running loop
+  head `start_task` succeeds on every ready task and `complete_task` on every tracked future;
+* `no_deadlock` (hypotheses `Acyclic`, `FuelOK`, `LimitsPos`): at every reachable resting point
+  (after the submit phase of a running loop head) pending work implies a tracked future, and for
+  process runners a tracked future implies a running worker — the coordinator never waits on
+  nothing;
+* `fair_iteration_progress`: every iteration whose wait delivers the first running worker's outcome
+  yields at least one more task;
+* `terminates` (`Fair` schedule of length ≥ number of planned tasks + 1): the run ends — it
+  returns, or raises `LabError` (`terminates_cases`).
+`LimitsPos` is necessary: with `max_workers = 0` or a `max_parallel = 0` the model (and the real
+coordinator) waits forever (`spins_without_limits`).
 -/
 namespace Lt.Props.C11
 open Lt
@@ -95,5 +107,97 @@ def exP : Problem where
 example : (run { backend := .fork, maxWorkers := 1, contOnFail := true, bust := false } exP [] 3
             [⟨fun _ => false⟩, ⟨fun _ => true⟩, ⟨fun _ => true⟩, ⟨fun _ => true⟩]).status = .returned [(1, 1)] := by
   decide
+
+/-! ## whole runs -/
+
+/-- Python's `KeyError` paths of `start_task` / `complete_task` are never taken -/
+theorem no_keyerror (cfg : Config) (p : Problem) (store : Store) (fuel : Nat) (sched : List Choice) :
+    let rs := runLoop cfg p (reqTids p) sched (initRS cfg p store fuel)
+    rs.status ≠ .raised .keyError ∧ (run cfg p store fuel sched).status ≠ .raised .keyError ∧
+    (∀ t ∈ readyTasks p rs.ts, ∃ s', startTask rs.ts t = some s') ∧
+    (∀ t ∈ rs.futs, ∃ r, completeTask rs.ts t = some r) := by
+  intro rs
+  have hc := (reach_all cfg p store fuel sched).1
+  refine ⟨hc.noKey, ?_, ?_, ?_⟩
+  · rcases run_status_cases cfg p store fuel sched with h | ⟨r, h⟩ | ⟨t, h⟩ <;> rw [h] <;> simp
+  · intro t ht
+    have := (readyTasks_no_pending_deps p rs.ts t ht).2
+    exact ⟨startedTS rs.ts t, by simp [startTask, setRemove, this, startedTS]⟩
+  · intro t ht
+    obtain ⟨s', rem, h, _⟩ := completeTask_TSInv _ (plan_PI cfg p store fuel) _ rs.ts t hc.ts
+      ((hc.futsAct t).mp ht)
+    exact ⟨_, h⟩
+
+/-- the coordinator never waits while tasks remain but none is in flight -/
+theorem no_deadlock (cfg : Config) (p : Problem) (store : Store) (fuel : Nat) (sched : List Choice)
+    (hA : Acyclic p) (hF : FuelOK p fuel) (hL : LimitsPos cfg p) :
+    let rs := runLoop cfg p (reqTids p) sched (initRS cfg p store fuel)
+    let rs' := submitAll cfg p (readyTasks p rs.ts) rs
+    rs.status = .running →
+      (rs'.ts.pending ≠ [] → rs'.futs ≠ []) ∧
+      (cfg.backend ≠ .serial → rs'.futs ≠ [] → rs'.running ≠ []) :=
+  fun hrun => loopHead_no_deadlock cfg p store fuel sched hA hF hL hrun
+
+/-- every iteration from a running loop head with work left whose wait delivers (at least) the
+    first running worker's outcome yields at least one more task -/
+theorem fair_iteration_progress (cfg : Config) (p : Problem) (store : Store) (fuel : Nat) (sched : List Choice)
+    (hA : Acyclic p) (hF : FuelOK p fuel) (hL : LimitsPos cfg p) (c : Choice) (hc : c.finish 0 = true) :
+    let rs := runLoop cfg p (reqTids p) sched (initRS cfg p store fuel)
+    rs.status = .running → loopCond rs = true →
+      (yielded rs).length < (yielded (iteration cfg p (reqTids p) c rs)).length := by
+  intro rs hrun hlc
+  obtain ⟨hCl, hLt⟩ := plan_good cfg p store fuel hA hF
+  exact iteration_progress _ (plan_PI cfg p store fuel) hCl hLt hL c hc
+    (loopHead_live cfg p store fuel sched) hrun hlc
+
+/-- with enough fair choices `run_tasks` ends -/
+theorem terminates (cfg : Config) (p : Problem) (store : Store) (fuel : Nat) (sched : List Choice)
+    (hA : Acyclic p) (hF : FuelOK p fuel) (hL : LimitsPos cfg p) (hfair : Fair sched)
+    (hlen : (plan cfg p store fuel).pending.length + 1 ≤ sched.length) :
+    (run cfg p store fuel sched).status ≠ .running :=
+  run_terminates cfg p store fuel sched hA hF hL hfair hlen
+
+/-- ... and it ends by returning or by raising `LabError` (only without `continue_on_failure`) -/
+theorem terminates_cases (cfg : Config) (p : Problem) (store : Store) (fuel : Nat) (sched : List Choice)
+    (hA : Acyclic p) (hF : FuelOK p fuel) (hL : LimitsPos cfg p) (hfair : Fair sched)
+    (hlen : (plan cfg p store fuel).pending.length + 1 ≤ sched.length) :
+    (∃ r, (run cfg p store fuel sched).status = .returned r) ∨
+    (cfg.contOnFail = false ∧ ∃ t, (run cfg p store fuel sched).status = .raised (.labError t)) := by
+  rcases run_status_cases cfg p store fuel sched with h | h | ⟨t, h⟩
+  · exact absurd h (terminates cfg p store fuel sched hA hF hL hfair hlen)
+  · exact Or.inl h
+  · right
+    refine ⟨?_, t, h⟩
+    cases hcf : cfg.contOnFail with
+    | false => rfl
+    | true =>
+      have h1 := loopHead_status_cof cfg p store fuel sched hcf
+      have h2 : (run cfg p store fuel sched).status = (finish (reqTids p) (loopHead cfg p store fuel sched)).status := rfl
+      rw [h2] at h
+      simp only [finish, h1] at h
+      split at h <;> simp [h1] at h
+
+/-- non-vacuity of the hypotheses and of the conclusion: the diamond example, with a failing task,
+    every backend; 5 fair choices suffice for 4 planned tasks -/
+example : ∀ be ∈ [Backend.serial, Backend.fork, Backend.spawn],
+    let cfg : Config := { invExCfg with backend := be, maxWorkers := 1 }
+    let pr : Problem := { invExP with fails := fun t => t == 2 }
+    (plan cfg pr [] 4).pending.length + 1 ≤ (List.replicate 5 chooseFirst).length ∧
+    (run cfg pr [] 4 (List.replicate 5 chooseFirst)).status = .returned [(3, 4007), (1, 1000)] ∧
+    (run cfg pr [] 4 (List.replicate 3 chooseFirst)).status = .running := by decide
+
+/-- the hypotheses of `terminates` / `no_deadlock` are satisfiable together: instantiation on the
+    diamond with a failing task, any backend, one worker -/
+example (be : Backend) :
+    (run { invExCfg with backend := be, maxWorkers := 1 } { invExP with fails := fun t => t == 2 } [] 4
+      (List.replicate 5 chooseFirst)).status ≠ .running :=
+  terminates _ _ [] 4 _ invExP_acyclic invExP_fuel (invEx_limits be 1 (by decide))
+    (fair_replicate 5 chooseFirst rfl) (by cases be <;> decide)
+
+/-- `LimitsPos` cannot be dropped: with `max_workers = 0` the coordinator spins -/
+theorem spins_without_limits :
+    (run { invExCfg with maxWorkers := 0 } invExP [] 4 (List.replicate 8 chooseAll)).status = .running ∧
+    Fair (List.replicate 8 chooseAll) := by
+  refine ⟨by decide, fair_replicate _ _ rfl⟩
 
 end Lt.Props.C11
